@@ -175,7 +175,9 @@ func (z *ZodRecord[T, R]) NonOptional() *ZodRecord[T, T] {
 		internals: &ZodRecordInternals{
 			ZodTypeInternals: *in,
 			Def:              z.internals.Def,
+			KeyType:          z.internals.KeyType,
 			ValueType:        z.internals.ValueType,
+			Loose:            z.internals.Loose,
 		},
 	}
 }
